@@ -122,6 +122,12 @@ CouponHashSet<A>* CouponHashSet<A>::newSet(const void* bytes, size_t len, const 
     std::memcpy(sketch->coupons_.data(),
                 data + hll_constants::HASH_SET_INT_ARR_START,
                 couponsInArray * sizeof(uint32_t));
+    uint32_t numCoupons = 0;
+    for (const uint32_t coupon: sketch->coupons_) { if (coupon != hll_constants::EMPTY) ++numCoupons; }
+    if (numCoupons != couponCount) {
+      sketch->get_deleter()(sketch);
+      throw std::invalid_argument("Coupon count in sketch image does not match the coupon array");
+    }
   }
 
   return sketch;
@@ -192,6 +198,14 @@ CouponHashSet<A>* CouponHashSet<A>::newSet(std::istream& is, const A& allocator)
 
   if (!is.good())
     throw std::runtime_error("error reading from std::istream"); 
+
+  if (!compactFlag) { // the whole array was read: the count must agree with its non-empty slots
+    uint32_t numCoupons = 0;
+    for (const uint32_t coupon: sketch->coupons_) { if (coupon != hll_constants::EMPTY) ++numCoupons; }
+    if (numCoupons != couponCount) {
+      throw std::invalid_argument("Coupon count in sketch image does not match the coupon array");
+    }
+  }
 
   return ptr.release();
 }
